@@ -74,11 +74,37 @@ impl std::error::Error for KindErr {}
 
 type G = Vec<bool>;
 
+/// How a scripted probe draws from the generator it is handed: through each of the three
+/// `RngCore` entry points, incl. byte fills whose length is not a multiple of a word, so that an
+/// erased layer that re-implements one of them differently shows in value or stream position.
+fn draw<R: Rng + ?Sized>(rng: &mut R, style: u8) -> u64 {
+    match style % 6 {
+        0 => rng.next_u64(),
+        1 => u64::from(rng.next_u32()),
+        2 => {
+            let mut b = [0u8; 5];
+            rng.fill_bytes(&mut b);
+            b.iter().fold(0u64, |a, x| (a << 8) | u64::from(*x))
+        }
+        3 => {
+            let mut b = [0u8; 11];
+            rng.fill_bytes(&mut b);
+            b.iter().fold(u64::from(rng.next_u32()), |a, x| a.rotate_left(7) ^ u64::from(*x))
+        }
+        4 => {
+            let mut b = [0u8; 1];
+            rng.fill_bytes(&mut b);
+            u64::from(b[0]) ^ rng.next_u64()
+        }
+        _ => u64::from(rng.random_bool(0.37)) | (u64::from(rng.next_u32()) << 1),
+    }
+}
+
 #[derive(Clone, Debug)]
 pub enum MutKind {
     Rate(f32),
     OneOverLength,
-    Probe { fail: bool },
+    Probe { fail: bool, style: u8 },
 }
 pub struct MutLeaf(pub MutKind);
 impl Mutator<G> for MutLeaf {
@@ -88,8 +114,8 @@ impl Mutator<G> for MutLeaf {
         match &self.0 {
             MutKind::Rate(r) => WithRate::new(*r).mutate(genome, rng).map_err(|e| KindErr(format!("{e:?}"))),
             MutKind::OneOverLength => WithOneOverLength.mutate(genome, rng).map_err(|e| KindErr(format!("{e}"))),
-            MutKind::Probe { fail } => {
-                let w = rng.next_u64();
+            MutKind::Probe { fail, style } => {
+                let w = draw(rng, *style);
                 if *fail {
                     Err(KindErr(format!("probe mutator failed after drawing {w}")))
                 } else {
@@ -104,7 +130,7 @@ impl Mutator<G> for MutLeaf {
 pub enum RecKind {
     TwoPoint,
     Uniform,
-    Probe { fail: bool },
+    Probe { fail: bool, style: u8 },
 }
 pub struct RecLeaf(pub RecKind);
 impl Recombinator<[G; 2]> for RecLeaf {
@@ -115,8 +141,8 @@ impl Recombinator<[G; 2]> for RecLeaf {
         match &self.0 {
             RecKind::TwoPoint => TwoPointXo.recombine(genomes, rng).map_err(|e| KindErr(format!("{e}"))),
             RecKind::Uniform => UniformXo.recombine(genomes, rng).map_err(|e| KindErr(format!("{e}"))),
-            RecKind::Probe { fail } => {
-                let w = rng.next_u32();
+            RecKind::Probe { fail, style } => {
+                let w = draw(rng, *style) as u32;
                 if *fail {
                     Err(KindErr(format!("probe recombinator failed after drawing {w}")))
                 } else {
@@ -131,7 +157,7 @@ impl Recombinator<[G; 2]> for RecLeaf {
 #[derive(Clone, Debug)]
 pub enum OpKind {
     Pipeline(f32),
-    Probe { fail: bool },
+    Probe { fail: bool, style: u8 },
 }
 #[derive(Composable)]
 pub struct OpLeaf(pub OpKind);
@@ -145,8 +171,8 @@ impl Operator<G> for OpLeaf {
                 .then(Mutate::new(WithOneOverLength))
                 .apply(input, rng)
                 .map_err(|e| KindErr(format!("{e}"))),
-            OpKind::Probe { fail } => {
-                let w = rng.next_u64();
+            OpKind::Probe { fail, style } => {
+                let w = draw(rng, *style);
                 if *fail {
                     Err(KindErr(format!("probe operator failed after drawing {w}")))
                 } else {
@@ -159,13 +185,14 @@ impl Operator<G> for OpLeaf {
 
 pub struct CmLeaf {
     pub fail: bool,
+    pub style: u8,
 }
 impl ChildMaker<Pop, Leaf> for CmLeaf {
     type Error = KindErr;
     fn make_child<R: Rng + ?Sized>(&self, rng: &mut R, population: &Pop, selector: &Leaf) -> Result<IndS, KindErr> {
         bump();
         let parent = selector.select(population, rng).map_err(|e| KindErr(format!("selection failed: {e}")))?;
-        let w = rng.next_u32();
+        let w = draw(rng, self.style) as u32;
         if self.fail {
             return Err(KindErr(format!("probe child maker failed after drawing {w}")));
         }
@@ -404,8 +431,8 @@ fn round(g: &mut Xo, rep: &mut Report) {
     let mk = match g.below(4) {
         0 => MutKind::Rate(g.f64() as f32),
         1 => MutKind::OneOverLength,
-        2 => MutKind::Probe { fail: false },
-        _ => MutKind::Probe { fail: true },
+        2 => MutKind::Probe { fail: false, style: g.below(6) as u8 },
+        _ => MutKind::Probe { fail: true, style: g.below(6) as u8 },
     };
     let concrete = obs_mut_concrete(&MutLeaf(mk.clone()), &genome, seed);
     let mut out: Vec<(&'static str, Obs)> = Vec::new();
@@ -421,8 +448,8 @@ fn round(g: &mut Xo, rep: &mut Report) {
     let rk = match g.below(4) {
         0 => RecKind::TwoPoint,
         1 => RecKind::Uniform,
-        2 => RecKind::Probe { fail: false },
-        _ => RecKind::Probe { fail: true },
+        2 => RecKind::Probe { fail: false, style: g.below(6) as u8 },
+        _ => RecKind::Probe { fail: true, style: g.below(6) as u8 },
     };
     let concrete = obs_rec_concrete(&RecLeaf(rk.clone()), &pair, seed);
     let mut out: Vec<(&'static str, Obs)> = Vec::new();
@@ -435,8 +462,8 @@ fn round(g: &mut Xo, rep: &mut Report) {
     // ---------------------------------------------------------------- operators
     let ok = match g.below(3) {
         0 => OpKind::Pipeline(g.f64() as f32),
-        1 => OpKind::Probe { fail: false },
-        _ => OpKind::Probe { fail: true },
+        1 => OpKind::Probe { fail: false, style: g.below(6) as u8 },
+        _ => OpKind::Probe { fail: true, style: g.below(6) as u8 },
     };
     let concrete = obs_op_concrete(&OpLeaf(ok.clone()), &genome, seed);
     let mut out: Vec<(&'static str, Obs)> = Vec::new();
@@ -448,13 +475,14 @@ fn round(g: &mut Xo, rep: &mut Report) {
 
     // ---------------------------------------------------------------- child makers
     let fail = g.chance(1, 3);
+    let style = g.below(6) as u8;
     let sel = Leaf::new(0, kind.clone());
-    let concrete = obs_cm_concrete(&CmLeaf { fail }, &pop, &sel, seed);
+    let concrete = obs_cm_concrete(&CmLeaf { fail, style }, &pop, &sel, seed);
     let mut out: Vec<(&'static str, Obs)> = Vec::new();
-    twenty_eight!(DynChildMaker<Pop, Leaf>, CmLeaf { fail }, |d| obs_cm_boxed(d, &pop, &sel, seed), out);
+    twenty_eight!(DynChildMaker<Pop, Leaf>, CmLeaf { fail, style }, |d| obs_cm_boxed(d, &pop, &sel, seed), out);
     compare("DynChildMaker", &format!("fail={fail} selector={kind:?}"), &concrete, out, rep, &format!("population of {n}"));
     let mut out: Vec<(&'static str, Obs)> = Vec::new();
-    twenty_eight!(DynChildMaker<Pop, Leaf, KindErr>, CmLeaf { fail }, |d| obs_cm_concrete(d, &pop, &sel, seed), out);
+    twenty_eight!(DynChildMaker<Pop, Leaf, KindErr>, CmLeaf { fail, style }, |d| obs_cm_concrete(d, &pop, &sel, seed), out);
     compare("DynChildMaker(identity error)", &format!("fail={fail} selector={kind:?}"), &concrete, out, rep, &format!("population of {n}"));
     let _ = BoxedSelErr;
 }
@@ -486,7 +514,7 @@ pub fn run(args: &Args) -> i32 {
     rep.finish(
         args,
         "exploration",
-        "rustc's verdict on 140 generated functions that require each (trait x pointer x auto-trait) flavour to implement the wrapped trait; every round instantiates all 28 pointer flavours of each of the five erasable traits, with the default boxed error type and with the identity error conversion (280 erased calls per round), around run-time chosen implementations (real Best/Worst/Random/Tournament/Lexicase, WithRate, WithOneOverLength, TwoPointXo, UniformXo, a Mutate.then(Mutate) pipeline, succeeding and failing probes) on random inputs and seeds; the (trait x flavour) grid is covered exhaustively in every round. distinct_nontrivial = distinct (trait, flavour, wrapped implementation, outcome kind)",
+        "rustc's verdict on 140 generated functions that require each (trait x pointer x auto-trait) flavour to implement the wrapped trait; every round instantiates all 28 pointer flavours of each of the five erasable traits, with the default boxed error type and with the identity error conversion (280 erased calls per round), around run-time chosen implementations (real Best/Worst/Random/Tournament/Lexicase, WithRate, WithOneOverLength, TwoPointXo, UniformXo, a Mutate.then(Mutate) pipeline, succeeding and failing probes drawing through next_u32 / next_u64 / fill_bytes of 1, 5 and 11 bytes / random_bool) on random inputs and seeds; the (trait x flavour) grid is covered exhaustively in every round. distinct_nontrivial = distinct (trait, flavour, wrapped implementation, outcome kind)",
         false,
         &[
             "values are compared through Debug renderings, selectors by element identity, errors by Display text and source chain",
